@@ -211,8 +211,30 @@ func (p *Prog) findContract(fn *types.Func, callerPkg string) *FuncSpec {
 		if fs, ok := p.contracts.Funcs["ext@"+callerPkg+"."+fn.Pkg().Name()+"."+key]; ok {
 			return fs
 		}
-		if fs, ok := p.contracts.Funcs["ext."+fn.Pkg().Name()+"."+key]; ok {
-			return fs
+		// then the assumed contract of the nearest imported package that states one (breadth-first over
+		// the caller's imports): package searcher uses the id order assumed in package search
+		if cp := p.pkgs[callerPkg]; cp != nil && cp.types != nil {
+			seen := map[string]bool{callerPkg: true}
+			queue := cp.types.Imports()
+			for len(queue) > 0 {
+				ip := queue[0]
+				queue = queue[1:]
+				if seen[ip.Path()] {
+					continue
+				}
+				seen[ip.Path()] = true
+				if fs, ok := p.contracts.Funcs["ext@"+ip.Path()+"."+fn.Pkg().Name()+"."+key]; ok {
+					return fs
+				}
+				if strings.HasPrefix(ip.Path(), p.module) {
+					queue = append(queue, ip.Imports()...)
+				}
+			}
+		}
+		if k := "ext." + fn.Pkg().Name() + "." + key; !p.contracts.ExtAmbiguous[k] {
+			if fs, ok := p.contracts.Funcs[k]; ok {
+				return fs
+			}
 		}
 	}
 	return nil
